@@ -155,6 +155,59 @@ def tf_swap_if(root):
     _rewrite_all(root, _SwapIf)
 
 
+class _FormatMessages(ast.NodeTransformer):
+    """'...%s...' % x inside a raise statement -> '...{}...'.format(x)."""
+
+    def visit_Raise(self, n):
+        import re
+        for c in ast.walk(n):
+            if isinstance(c, ast.BinOp) and isinstance(c.op, ast.Mod) and isinstance(c.left, ast.Constant) and isinstance(c.left.value, str):
+                specs = re.findall(r'%[a-zA-Z]', c.left.value)
+                if '%%' in c.left.value or '{' in c.left.value or not specs or any(x not in ('%s', '%r') for x in specs) \
+                        or c.left.value.count('%') != len(specs):
+                    continue
+                args = c.right.elts if isinstance(c.right, ast.Tuple) else [c.right]
+                if len(args) != len(specs):
+                    continue
+                txt = c.left.value.replace('%s', '{}').replace('%r', '{!r}')
+                new = ast.Call(func=ast.Attribute(value=ast.Constant(value=txt), attr='format', ctx=ast.Load()), args=list(args), keywords=[])
+                c.__class__ = ast.Call
+                c.__dict__.clear()
+                c.__dict__.update(new.__dict__)
+        return n
+
+
+class _SortMethods(ast.NodeTransformer):
+    """Runs of consecutive undecorated methods of a class in reverse alphabetical order."""
+
+    def visit_ClassDef(self, n):
+        self.generic_visit(n)
+        idx = [i for i, x in enumerate(n.body) if isinstance(x, ast.FunctionDef) and not x.decorator_list]
+        runs, cur = [], []
+        for i in idx:
+            if cur and i == cur[-1] + 1:
+                cur.append(i)
+            else:
+                if cur:
+                    runs.append(cur)
+                cur = [i]
+        if cur:
+            runs.append(cur)
+        for r in runs:
+            ms = sorted([n.body[i] for i in r], key=lambda f: f.name, reverse=True)
+            for i, m in zip(r, ms):
+                n.body[i] = m
+        return n
+
+
+def tf_format_messages(root):
+    _rewrite_all(root, _FormatMessages)
+
+
+def tf_sort_methods(root):
+    _rewrite_all(root, _SortMethods)
+
+
 class _AddLog(ast.NodeTransformer):
     def visit_If(self, node):
         self.generic_visit(node)
@@ -198,6 +251,8 @@ T('S-rename-some', tf_rename_some_locals)
 T('S-flip-compare', tf_flip_compare)
 T('S-expand-aug', tf_expand_aug)
 T('S-swap-if', tf_swap_if)
+T('S-format-messages', tf_format_messages)
+T('S-sort-methods', tf_sort_methods)
 T('S-add-log', tf_add_log)
 T('S-respell', tf_respell_literals)
 
